@@ -6,25 +6,29 @@ from vlib.registry import COMMON_NOTE
 
 REGISTRATION = {
     "engine": "lean-prompt",
-    "technique": "Lean 4 proof over an executable model of chatPrompt (template+tokenizer as a cost parameter) "
-                 "+ differential correspondence with the real chatPrompt/template.Execute",
+    "technique": "Lean 4 proof over an executable model of chatPrompt, template.Execute/collate/deleteNode, the "
+                 "ChatHandler conversation and the runner's tag lookup + differential correspondence with the "
+                 "real code at three levels (chatPrompt, POST /api/chat, runner inputs)",
     "category": "proof",
-    "text": "Kernel-checked theorems, for every conversation, every context length and every cost function, over a "
-            "Lean model that mirrors chatPrompt's backward loop (including which iteration's system slice survives "
-            "the break), the image renumbering / [img] rewriting and collate: the latest message is kept, the "
-            "retained messages are a suffix in order, the cut is the first failure (and, for monotone cost, the "
-            "longest fitting suffix), images returned are exactly the retained messages' images with id = position "
-            "and each tagged exactly once, images of dropped messages are not sent. System-message retention is "
-            "proved for the repaired variant and under an explicit guard for the pinned code (finding F4). The real "
-            "chatPrompt is run on generated conversations with four harness templates, six templates shipped in "
-            "/repo/template and two tokenizers; the oracle "
-            "must reproduce tokenizer-call count, images, rewritten contents and the prompt string (L1) and every "
-            "clause of the property is evaluated on the real prompt (L2).",
+    "text": "Kernel-checked theorems, for every conversation, context length, cost function and failure pattern, "
+            "over a Lean model that mirrors chatPrompt's backward loop, the image renumbering / [img] rewriting, "
+            "collate and template.Execute (an interpreter for the parse tree the real template.Parse built: "
+            ".Messages path, legacy loop, the .Response cut): latest message kept; retained = suffix in order; cut = "
+            "first failure and, for monotone cost, the longest fitting suffix; every system message before the run is "
+            "passed (full statement on the current tree, guard + witness for the pinned variant); images = retained "
+            "images, id = position, each tagged exactly once in its owner; dropped images not sent; every tag "
+            "resolves in the runner's lookup; ChatHandler's conversation ends with the request's latest message and "
+            "the model SYSTEM always reaches the template; collate loses nothing; the join-repaired legacy loop loses "
+            "nothing and equals the pinned one wherever nothing is lost today. Tie: real chatPrompt on generated "
+            "conversations x harness/shipped/randomly generated templates x tokenizers x models (exact: calls, images, "
+            "rewritten contents, prompt string, error class), real CreateHandler+ChatHandler end to end, real "
+            "ollamarunner inputs() on the pairs chatPrompt produced; every clause also evaluated on the real prompt.",
     "design_ref": "DESIGN.md §5 C19, §6 F4",
-    "note": COMMON_NOTE + "Modelled, not verified: the template+tokenizer are a parameter (cost vector measured on the "
-            "real template per case; the four harness templates are additionally re-implemented in the oracle and "
-            "cross-checked); message text is a list of pieces (literal text / [img] / [img-k] / <|image|>), "
-            "assumption: user text contains no literal `[img-`; mllama.Preprocess is a success/failure flag.",
+    "note": COMMON_NOTE + "Modelled, not verified: templates outside the executed subset (variables, assignments, "
+            "printf/slice/len, continue, with, pipelines; e.g. alpaca, gemma-instruct, llama2-chat) stay a measured "
+            "cost vector + template-agnostic L2; tokenizers are the two harness functions; mllama.Preprocess is a "
+            "success flag; the cgo llamarunner inputs() (same lookup loop) is not executed; assumption: user text "
+            "contains no literal `[img-`. Variant bits (F4, legacy loop, deleteNode) are probed on the tree under test.",
 }
 
 MODULES = ["OllamaVerif.Properties.C19"]
@@ -76,7 +80,7 @@ def run(ctx):
 
     # handler level: POST /api/chat through the real CreateHandler + ChatHandler with a mock runner
     if not ctx.replay or "hchat " in open(env["VERIF_REPLAY"]).read():
-        henv = {"VERIF_N": ctx.scale(400, 6000)}
+        henv = {"VERIF_N": ctx.scale(400, 4000)}
         if ctx.replay:
             henv["VERIF_REPLAY"] = env["VERIF_REPLAY"]
         rc, out, houtdir = ctx.go_test("./server/", OVERLAY, "^TestVerifC19Handler$", env=henv)
@@ -101,7 +105,8 @@ def run(ctx):
         ctx.l1(routdir, label="L1-runner")
         ctx.classify(ctx.l2(routdir))
     ctx.assumptions += [
-        "template + tokenizer enter the model as the cost vector measured on the real code for each case",
+        "templates inside the executed subset are run by the model on the tree the real Parse built; other templates "
+        "enter as the cost vector measured on the real code",
         "user text contains no literal `[img-` (cases violating it are generated for L1 but skipped by the tag-count monitor)",
         "image token accounting (768 per image, 1 for mllama) is taken from the code, not from the runner",
     ]
@@ -112,8 +117,11 @@ def run(ctx):
         rule="seeded random conversations (0-9 messages; roles system/user/assistant/tool/other in any order; "
              "empty, multi-line and placeholder-bearing contents; 0-3 images per message) x 4 harness templates "
              "(system-header messages style, legacy, default, in-place messages style; also rendered by the oracle) "
-             "and 6 templates shipped in /repo/template x 2 tokenizers x {plain, projector, mllama} x context lengths aimed at every measured total +-1; "
-             "distinct = distinct oracle command lines",
+             ", 6 templates shipped in /repo/template and randomly generated templates of both styles (if/else, "
+             "eq/ne/and/or/not, $.System, range forms, trim markers, missing keys, exec errors) x 2 tokenizers (+ injected "
+             "tokenizer failure) x {plain, projector, mllama} x context lengths aimed at every measured total +-1; "
+             "plus 400/4000 POST /api/chat requests against freshly created models and 5500/70000 runner-side "
+             "(prompt, images) pairs; distinct = distinct oracle command lines",
         explanation="Lean theorems about the model of chatPrompt for all conversations/limits/cost functions; model "
                     "tied to the real chatPrompt + template.Execute by exact comparison of tokenizer calls, images, "
                     "in-place rewritten contents and prompt string (L1) and by evaluating each property clause on "
